@@ -184,6 +184,12 @@ def build_harness(release=False):
                 open(os.path.join(HARNESS_DIR, "Cargo.toml"), "w").write(toml)
         shutil.copyfile(os.path.join(REPO, "Cargo.lock"), os.path.join(HARNESS_DIR, "Cargo.lock"))
         cmd = ["cargo", "build", "--offline", "--quiet"] + (["--release"] if release else [])
+        # the repository's own build configuration (flags for bundled C libraries, profiles, environment of build
+        # scripts) is part of its working tree: the harness is built under it too
+        for nm in ("config.toml", "config"):
+            if os.path.isfile(os.path.join(REPO, ".cargo", nm)):
+                cmd += ["--config", os.path.join(REPO, ".cargo", nm)]
+                break
         rc, out, err = run(cmd, cwd=HARNESS_DIR, timeout=2400,
                            env={"RUSTFLAGS": "--cfg tss_verif -Awarnings", "CARGO_TARGET_DIR": TARGET})
         binp = os.path.join(TARGET, "release" if release else "debug", "tss-harness")
@@ -197,6 +203,8 @@ def build_server_bin(release=False):
     with Lock("serverbin-" + os.path.basename(tgt)):
         rc, out, err = run(["cargo", "build", "--offline", "--quiet", "--manifest-path", os.path.join(REPO, "Cargo.toml"),
                             "--bin", "taskchampion-sync-server"] + (["--release"] if release else []), timeout=2400,
-                           env={"CARGO_TARGET_DIR": tgt, "RUSTFLAGS": "-Awarnings"})
+                           # (built from inside the repository: whatever its .cargo/config.toml says — build-time flags of
+                           # bundled libraries, profiles — is part of the working tree)
+                           cwd=REPO, env={"CARGO_TARGET_DIR": tgt, "RUSTFLAGS": "-Awarnings"})
         binp = os.path.join(tgt, "release" if release else "debug", "taskchampion-sync-server")
         return rc == 0 and os.path.exists(binp), binp, (out + err)[-4000:]
